@@ -5,9 +5,288 @@ import Ahbicht.Lemmas.Ctx
 namespace Ahbicht.Properties.C12
 open Ahbicht
 
+theorem foldl_slots {α : Type} (vals : List α) (step : List (Option α) → Nat → List (Option α))
+    (hs : ∀ slots i v, vals[i]? = some v → step slots i = slots.set i (some v))
+    (hn : ∀ slots i, vals[i]? = none → step slots i = slots) :
+    ∀ (order : List Nat) (slots : List (Option α)), slots.length = vals.length →
+      (order.foldl step slots).length = vals.length ∧
+      ∀ j, j < vals.length →
+        (order.foldl step slots)[j]? = if j ∈ order then some vals[j]? else slots[j]? := by
+  intro order
+  induction order with
+  | nil => intro slots h; simp [h]
+  | cons i rest ih =>
+    intro slots h
+    simp only [List.foldl_cons]
+    have hlen : (step slots i).length = vals.length := by
+      cases hv : vals[i]? with
+      | none => rw [hn _ _ hv]; exact h
+      | some v => rw [hs _ _ _ hv]; simp [h]
+    obtain ⟨h1, h2⟩ := ih _ hlen
+    refine ⟨h1, ?_⟩
+    intro j hj
+    rw [h2 j hj]
+    by_cases hjr : j ∈ rest
+    · simp [hjr]
+    · simp only [hjr, if_false, List.mem_cons, or_false]
+      by_cases hji : j = i
+      · subst hji
+        have : vals[j]? = some vals[j] := List.getElem?_eq_getElem hj
+        rw [hs _ _ _ this]
+        simp [h, hj]
+      · simp only [hji, if_false]
+        cases hv : vals[i]? with
+        | none => rw [hn _ _ hv]
+        | some v => rw [hs _ _ _ hv, List.getElem?_set]; simp [Ne.symm hji]
+
+/-- **gather.** Whatever the order in which the awaitables complete (every index at least once), slot `i` holds the value of awaitable `i`. -/
+theorem C12_gather_slots {α : Type} (vals : List α) (order : List Nat) (hall : ∀ i, i < vals.length → i ∈ order) :
+    runGather vals order = vals.map some := by
+  have ⟨step, hs, hn, heq⟩ : ∃ step : List (Option α) → Nat → List (Option α),
+      (∀ slots i v, vals[i]? = some v → step slots i = slots.set i (some v)) ∧
+      (∀ slots i, vals[i]? = none → step slots i = slots) ∧
+      runGather vals order = order.foldl step (List.replicate vals.length none) := by
+    refine ⟨_, ?_, ?_, rfl⟩
+    · intro slots i v h; simp only [h]
+    · intro slots i h; simp only [h]
+  rw [heq]
+  obtain ⟨h1, h2⟩ := foldl_slots vals step hs hn order (List.replicate vals.length none) (by simp)
+  apply List.ext_getElem?
+  intro j
+  by_cases hj : j < vals.length
+  · rw [h2 j hj]; simp [hall j hj, List.getElem?_eq_getElem hj]
+  · have hj' : vals.length ≤ j := Nat.le_of_not_lt hj
+    rw [List.getElem?_eq_none (by omega), List.getElem?_eq_none (by simpa using hj')]
+
+theorem contains_awaitableIndexesOf {α : Type} (pre : List (MaybeAwaitable α)) (x : MaybeAwaitable α) (rest : List (MaybeAwaitable α)) :
+    (awaitableIndexesOf (pre ++ x :: rest)).contains pre.length = x.isAwaitable := by
+  unfold awaitableIndexesOf
+  rw [Bool.eq_iff_iff]
+  simp [List.mem_filter, List.mem_range]
+
+theorem awaitedOf_append {α : Type} (a b : List (MaybeAwaitable α)) : awaitedOf (a ++ b) = awaitedOf a ++ awaitedOf b := by
+  unfold awaitedOf; simp
+
+theorem merge_fold {α : Type} (items : List (MaybeAwaitable α)) (step : List α × Nat × Nat → MaybeAwaitable α → List α × Nat × Nat)
+    (hA : ∀ res index ai obj r, (awaitableIndexesOf items).contains index = true → (awaitedOf items)[ai]? = some r →
+      step (res, index, ai) obj = (res ++ [r], index + 1, ai + 1))
+    (hR : ∀ res index ai obj, (awaitableIndexesOf items).contains index = false →
+      step (res, index, ai) obj = (res ++ [obj.value], index + 1, ai)) :
+    ∀ (suf pre : List (MaybeAwaitable α)), items = pre ++ suf →
+      suf.foldl step (pre.map MaybeAwaitable.value, pre.length, (awaitedOf pre).length) =
+        (items.map MaybeAwaitable.value, items.length, (awaitedOf items).length) := by
+  intro suf
+  induction suf with
+  | nil => intro pre h; simp [h]
+  | cons x rest ih =>
+    intro pre h
+    have h' : items = (pre ++ [x]) ++ rest := by simp [h]
+    rw [List.foldl_cons]
+    have hc := contains_awaitableIndexesOf pre x rest
+    rw [← h] at hc
+    have hstep : step (pre.map MaybeAwaitable.value, pre.length, (awaitedOf pre).length) x =
+        ((pre ++ [x]).map MaybeAwaitable.value, (pre ++ [x]).length, (awaitedOf (pre ++ [x])).length) := by
+      cases x with
+      | result v =>
+        rw [hR _ _ _ _ (by simpa [MaybeAwaitable.isAwaitable] using hc)]
+        simp [awaitedOf, MaybeAwaitable.value]
+      | awaitable v =>
+        have hget : (awaitedOf items)[(awaitedOf pre).length]? = some v := by
+          rw [h, awaitedOf_append]
+          simp [awaitedOf]
+        rw [hA _ _ _ _ v (by simpa [MaybeAwaitable.isAwaitable] using hc) hget]
+        simp [awaitedOf, MaybeAwaitable.value]
+    rw [hstep]
+    exact ih (pre ++ [x]) h'
+
+/-- **gather_if_necessary.** The index bookkeeping returns, position by position, the plain result or the awaited result of that position. -/
+theorem C12_gather_if_necessary {α : Type} (items : List (MaybeAwaitable α)) :
+    gatherIfNecessary items = items.map MaybeAwaitable.value := by
+  have ⟨step, hA, hR, heq⟩ : ∃ step : List α × Nat × Nat → MaybeAwaitable α → List α × Nat × Nat,
+      (∀ res index ai obj r, (awaitableIndexesOf items).contains index = true → (awaitedOf items)[ai]? = some r →
+        step (res, index, ai) obj = (res ++ [r], index + 1, ai + 1)) ∧
+      (∀ res index ai obj, (awaitableIndexesOf items).contains index = false →
+        step (res, index, ai) obj = (res ++ [obj.value], index + 1, ai)) ∧
+      gatherIfNecessary items = (items.foldl step ([], 0, 0)).1 := by
+    refine ⟨_, ?_, ?_, rfl⟩
+    · intro res index ai obj r h1 h2
+      simp only [h1, h2, if_true]
+    · intro res index ai obj h1
+      cases obj <;> simp only [h1, MaybeAwaitable.value] <;> rfl
+  rw [heq]
+  have := merge_fold items step hA hR items [] (by simp)
+  simp only [List.map_nil, List.length_nil, awaitedOf, List.filterMap_nil] at this
+  rw [this]
+
+/-- **dict(zip(keys, results)).** Every key is paired with the value produced for it — also with repeated keys. -/
+theorem C12_zip_dict {κ α : Type} [DecidableEq κ] (keys : List κ) (f : κ → α) (k : κ) (hk : k ∈ keys) :
+    dictLookup (keys.zip (keys.map f)) k = some (f k) := by
+  have hz : keys.zip (keys.map f) = keys.map (fun k => (k, f k)) := by
+    induction keys with
+    | nil => rfl
+    | cons a l ih =>
+      simp only [List.map_cons, List.zip_cons_cons, List.cons.injEq, true_and]
+      by_cases h : k ∈ l
+      · exact ih h
+      · clear ih hk h
+        induction l with
+        | nil => rfl
+        | cons b l ih => simp [ih]
+  rw [hz]
+  unfold dictLookup
+  rw [← List.map_reverse, List.find?_map]
+  have hk' : k ∈ keys.reverse := by simpa using hk
+  cases hf : List.find? ((fun x => decide (x.1 = k)) ∘ fun k => (k, f k)) keys.reverse with
+  | none =>
+    rw [List.find?_eq_none] at hf
+    have := hf k hk'
+    simp at this
+  | some a =>
+    have := List.find?_some hf
+    simp at this
+    simp [this]
+
+/-- per key, for every completion order: gather, then zip -/
+theorem C12_keys {κ α : Type} [DecidableEq κ] (keys : List κ) (f : κ → α) (order : List Nat)
+    (hall : ∀ i, i < keys.length → i ∈ order) (k : κ) (hk : k ∈ keys) :
+    dictLookup (keys.zip ((runGather (keys.map f) order).filterMap id)) k = some (f k) := by
+  rw [C12_gather_slots (keys.map f) order (by simpa using hall)]
+  have : List.filterMap id (List.map some (List.map f keys)) = List.map f keys := by
+    rw [List.filterMap_map]
+    exact List.filterMap_some
+  rw [this]
+  exact C12_zip_dict keys f k hk
+
+mutual
+/-- like `substHoles`, but only the holes whose id is in `ids` are replaced -/
+def substSome (ids : List Nat) (res : Nat → PTree) : PTree → PTree
+  | .tok v => .tok v
+  | .hole i => .hole i
+  | .node d cs => .node d (substSomeF ids res cs)
+def substSomeF (ids : List Nat) (res : Nat → PTree) : PForest → PForest
+  | .nil => .nil
+  | .cons (.hole i) rest => .cons (if i ∈ ids then res i else .hole i) (substSomeF ids res rest)
+  | .cons (.tok v) rest => .cons (.tok v) (substSomeF ids res rest)
+  | .cons (.node d cs) rest => .cons (.node d (substSomeF ids res cs)) (substSomeF ids res rest)
+end
+
+mutual
+theorem replaceOne_holeFree (id : Nat) (r : PTree) : ∀ t : PTree, holeFree t = true → replaceOne id r t = t
+  | .tok v, _ => by simp [replaceOne]
+  | .hole i, h => by simp [holeFree] at h
+  | .node d cs, h => by
+    simp only [holeFree] at h
+    simp only [replaceOne, replaceOneF_holeFree id r cs h]
+theorem replaceOneF_holeFree (id : Nat) (r : PTree) : ∀ f : PForest, holeFreeF f = true → replaceOneF id r f = f
+  | .nil, _ => by simp [replaceOneF]
+  | .cons (.hole i) rest, h => by simp [holeFreeF, holeFree] at h
+  | .cons (.tok v) rest, h => by
+    simp only [holeFreeF, Bool.and_eq_true] at h
+    simp only [replaceOneF, replaceOne, replaceOneF_holeFree id r rest h.2]
+  | .cons (.node d cs) rest, h => by
+    simp only [holeFreeF, holeFree, Bool.and_eq_true] at h
+    simp only [replaceOneF, replaceOne, replaceOneF_holeFree id r rest h.2, replaceOneF_holeFree id r cs h.1]
+end
+
+/-- `replaceOneF` on a forest whose head is hole-free -/
+theorem replaceOneF_cons_holeFree (id : Nat) (r t : PTree) (rest : PForest) (h : holeFree t = true) :
+    replaceOneF id r (.cons t rest) = .cons t (replaceOneF id r rest) := by
+  cases t with
+  | tok v => simp [replaceOneF, replaceOne]
+  | hole i => simp [holeFree] at h
+  | node d cs =>
+    have := replaceOne_holeFree id r (.node d cs) h
+    simp only [replaceOneF, this]
+
+mutual
+theorem replaceOne_substSome (res : Nat → PTree) (hres : ∀ i, holeFree (res i) = true) (id : Nat) (ids : List Nat) :
+    ∀ t : PTree, replaceOne id (res id) (substSome ids res t) = substSome (id :: ids) res t
+  | .tok v => by simp [substSome, replaceOne]
+  | .hole i => by simp [substSome, replaceOne]
+  | .node d cs => by
+    simp only [substSome, replaceOne, replaceOneF_substSomeF res hres id ids cs]
+theorem replaceOneF_substSomeF (res : Nat → PTree) (hres : ∀ i, holeFree (res i) = true) (id : Nat) (ids : List Nat) :
+    ∀ f : PForest, replaceOneF id (res id) (substSomeF ids res f) = substSomeF (id :: ids) res f
+  | .nil => by simp [substSomeF, replaceOneF]
+  | .cons (.hole i) rest => by
+    simp only [substSomeF]
+    by_cases hi : i ∈ ids
+    · simp only [hi, if_true, List.mem_cons, or_true]
+      rw [replaceOneF_cons_holeFree _ _ _ _ (hres i), replaceOneF_substSomeF res hres id ids rest]
+    · simp only [hi, if_false, List.mem_cons, or_false]
+      simp only [replaceOneF, replaceOneF_substSomeF res hres id ids rest]
+      by_cases hid : i = id
+      · subst hid; simp
+      · simp [hid]
+  | .cons (.tok v) rest => by
+    simp only [substSomeF, replaceOneF, replaceOne, replaceOneF_substSomeF res hres id ids rest]
+  | .cons (.node d cs) rest => by
+    simp only [substSomeF, replaceOneF, replaceOne, replaceOneF_substSomeF res hres id ids rest,
+      replaceOneF_substSomeF res hres id ids cs]
+end
+
+mutual
+theorem substSome_nil (res : Nat → PTree) : ∀ t : PTree, substSome [] res t = t
+  | .tok v => by simp [substSome]
+  | .hole i => by simp [substSome]
+  | .node d cs => by simp only [substSome, substSomeF_nil res cs]
+theorem substSomeF_nil (res : Nat → PTree) : ∀ f : PForest, substSomeF [] res f = f
+  | .nil => by simp [substSomeF]
+  | .cons (.hole i) rest => by simp [substSomeF, substSomeF_nil res rest]
+  | .cons (.tok v) rest => by simp only [substSomeF, substSomeF_nil res rest]
+  | .cons (.node d cs) rest => by simp only [substSomeF, substSomeF_nil res rest, substSomeF_nil res cs]
+end
+
+mutual
+theorem substSome_all (res : Nat → PTree) (ids : List Nat) :
+    ∀ t : PTree, (∀ i ∈ scanHoles t, i ∈ ids) → substSome ids res t = substHoles res t
+  | .tok v, _ => by simp [substSome, substHoles]
+  | .hole i, _ => by simp [substSome, substHoles]
+  | .node d cs, h => by
+    simp only [scanHoles] at h
+    simp only [substSome, substHoles, substSomeF_all res ids cs h]
+theorem substSomeF_all (res : Nat → PTree) (ids : List Nat) :
+    ∀ f : PForest, (∀ i ∈ scanHolesF f, i ∈ ids) → substSomeF ids res f = substHolesF res f
+  | .nil, _ => by simp [substSomeF, substHolesF]
+  | .cons (.hole i) rest, h => by
+    simp only [scanHolesF, scanHoles, List.mem_append] at h
+    have hi : i ∈ ids := h i (Or.inl (by simp))
+    simp only [substSomeF, substHolesF, hi, if_true, substSomeF_all res ids rest (fun j hj => h j (Or.inr hj))]
+  | .cons (.tok v) rest, h => by
+    simp only [scanHolesF, scanHoles, List.mem_append] at h
+    simp only [substSomeF, substHolesF, substHoles, substSomeF_all res ids rest (fun j hj => h j (Or.inr hj))]
+  | .cons (.node d cs) rest, h => by
+    simp only [scanHolesF, scanHoles, List.mem_append] at h
+    simp only [substSomeF, substHolesF, substHoles, substSomeF_all res ids rest (fun j hj => h j (Or.inr hj)),
+      substSomeF_all res ids cs (fun j hj => h j (Or.inl hj))]
+end
+
+theorem replaceAll_substSome (res : Nat → PTree) (hres : ∀ i, holeFree (res i) = true) (t : PTree) :
+    ∀ (ids acc : List Nat), replaceAll (ids.zip (ids.map res)) (substSome acc res t) = substSome (ids.reverse ++ acc) res t := by
+  intro ids
+  induction ids with
+  | nil => intro acc; simp [replaceAll]
+  | cons i rest ih =>
+    intro acc
+    have := ih (i :: acc)
+    simp only [replaceAll] at this ⊢
+    simp only [List.map_cons, List.zip_cons_cons, List.foldl_cons, replaceOne_substSome res hres i acc t, this]
+    simp
+
+/-- **placeholders.** With pairwise different coroutine objects and hole-free results, replacing "by equality, everywhere" with the
+results zipped in scan order gives every package occurrence the expression resolved for it. -/
+theorem C12_placeholders (t : PTree) (res : Nat → PTree) (hnd : (scanHoles t).Nodup) (hres : ∀ i, holeFree (res i) = true) :
+    replaceAll ((scanHoles t).zip ((scanHoles t).map res)) t = substHoles res t := by
+  have _ := hnd  -- not needed: replacement is by id, so repeated ids are replaced by the same result
+  have h := replaceAll_substSome res hres t (scanHoles t) []
+  rw [substSome_nil] at h
+  rw [h]
+  exact substSome_all res _ t (by intro i hi; simp [hi])
+
 /-- **context-local data.** Concurrent evaluations that take their data from context-local storage each see their own data (C15's machine). -/
 theorem C12_context (P : Tid → List COp) (parent : Tid → Option (Tid × Nat)) (wf : CWF P parent) (sched : List Tid) :
     ∀ e ∈ (crun P cinit sched).out, e.2.2 = expected P parent e.1 e.2.1 :=
   ctx_schedule_independent P parent wf sched
 
 end Ahbicht.Properties.C12
+
